@@ -10,8 +10,10 @@ from . import _auth
 
 ID = "C10"
 P = "Webauthn.Props.C10."
-THEOREMS = [P + n for n in ("bits", "graph", "reserved_ignored", "backup", "auth_gate", "layout")]
-LEAN_TARGETS = ["Props.C10"]
+THEOREMS = [P + n for n in ("bits", "graph", "reserved_ignored", "backup", "auth_gate", "layout")] + \
+           ["Webauthn.Props.C02.sound", "Webauthn.Props.C05.reg_fidelity"]   # the registration gate and report
+LEAN_TARGETS = ["Props.C10", "Props.C02", "Props.C05"]
+AUDIT_IMPORTS = ["Props.C02", "Props.C05"]
 SPEC_FILES = ["Spec/Core.lean"]
 ASSUMPTIONS = ["the six mask expressions and the 256-row flag graph are regenerated from /repo on every run; "
                "theorems are checked against them by kernel evaluation over all 256 bytes"]
@@ -21,12 +23,45 @@ def spec_row(b):
     return {"up": bool(b & 1), "uv": bool(b & 4), "be": bool(b & 8), "bs": bool(b & 16), "at": bool(b & 64), "ed": bool(b & 128)}
 
 
+def reg_case(res, tie, b, policy, c):
+    """registration (fmt none) with flags byte b under (require_up, require_uv)"""
+    require_up, require_uv = policy
+    row = spec_row(b)
+    cose = c.cose() if row["at"] else None
+    ext = cbor2.dumps({"credProtect": 2}) if row["ed"] else None
+    ad = core.auth_data(core.sha256(b"example.com"), b, 4, aaguid=bytes(range(16)), cred_id=b"cred-id-0123", cose=cose, ext=ext)
+    cdj = core.client_data("webauthn.create", b"\x02" * 32, "https://example.com")
+    ao = cbor2.dumps({"fmt": "none", "attStmt": {}, "authData": ad})
+    cr = {"id": core.b64url(b"cred-id-0123"), "raw_id": b"cred-id-0123", "type": "public-key", "client_data_json": cdj,
+          "attestation_object": ao}
+    e = {"challenge": b"\x02" * 32, "rp_id": "example.com", "origin": "https://example.com", "require_up": require_up,
+         "require_uv": require_uv, "algs": cases.ALL_ALGS, "roots": {}}
+    code = cases.run_reg(cr, e)
+    res.evaluations += 1
+    tie.check(cases.reg_case(cr, e), code, label=["reg-flags", b, require_up, require_uv])
+    res.nontrivial.add(("reg", b, policy))
+    res.count("reg:" + corr.kind(code))
+    expect_accept = (row["up"] or not require_up) and (row["uv"] or not require_uv) and row["at"] and not (row["bs"] and not row["be"])
+    ok = (code["k"] == "accept") == expect_accept
+    if ok and code["k"] == "accept":
+        r = code["record"]
+        ok = (r["user_verified"] == row["uv"] and r["credential_backed_up"] == row["bs"]
+              and r["credential_device_type"] == ("multi_device" if row["be"] else "single_device"))
+    if not ok:
+        res.violations.append({"why": f"registration with flags {b:#04x}, require_up={require_up}, require_uv={require_uv}: {str(code)[:200]}",
+                               "flags": b, "case": cases.reg_case(cr, e),
+                               "match": {"op": "verify_reg", "flags": b, "require_up": require_up, "require_uv": require_uv}})
+
+
 def work(tasks, idx):
     res = Result()
     drv = Driver(Oracle()) if work.driver_ok else None
     tie = corr.Tie(res, drv, "eq")
     cs = _auth.creds()
     for b, require_uv, ci in tasks:
+        if isinstance(require_uv, tuple):
+            reg_case(res, tie, b, require_uv, cs[ci])
+            continue
         c = cs[ci]
         row = spec_row(b)
         cose = c.cose() if row["at"] else None
@@ -71,9 +106,11 @@ def run(ctx, res):
     rng = ctx.rng
     ncreds = len(_auth.creds())
     tasks = [(b, uv, rng.randrange(ncreds)) for b in range(256) for uv in (False, True)]
+    tasks += [(b, (up, uv), rng.randrange(ncreds)) for b in range(256) for up in (False, True) for uv in (False, True)]
     work.driver_ok = ctx.driver_ok
     corr.merge(res, corr.parallel(work, tasks))
     res.exhaustive = True
-    res.rule = ("ALL 256 flag bytes x require_user_verification in {False, True}, authenticator data laid out as the flags announce, "
+    res.rule = ("ALL 256 flag bytes x require_user_verification in {False, True} for authentication and x (require_user_presence, "
+                "require_user_verification) in all four combinations for registration (fmt none), authenticator data laid out as the flags announce, "
                 "each assertion genuinely signed; parser outcome and verify_authentication_response outcome/reported fields compared "
                 "with the spec table and with the model (equality); distinct = (flag byte, policy)")
